@@ -22,6 +22,8 @@ def fstring_args():
                 continue
             lit = p + q + b + q
             out += [lit, lit + ", b", "x, " + lit, " " + lit + " "]
+            # the same literal INSIDE an open bracket of the argument: its literal pieces (")", "]", "}") must not close that bracket
+            out += ["g(" + lit + "), y", "[" + lit + ", a, b], c", "{" + lit + ": 1}", "(" + lit + ",), z"]
     return out
 
 
@@ -92,7 +94,7 @@ def main():
                         "trailing blank lines of a with-macro block are part of the body (pinned by the repo's tests); trailing comment lines are KF-C07-1"]
     collect_functions(chk, lambda: oracles.run_parse(repo().real, "y = f!(a b, [1, 2])\nwith! c:\n    d e\n$(echo! x  y)\n", "exec"))
     harness.oracles.ORACLES.update(oracles2.ORACLES)
-    margs = list(dict.fromkeys(test_macro_args() + EXTRA_ARGS + (chk.rng.sample(fstring_args(), 60) if chk.quick else fstring_args())))
+    margs = list(dict.fromkeys(test_macro_args() + EXTRA_ARGS + (chk.rng.sample(fstring_args(), 120) if chk.quick else fstring_args())))
     chk.extra["macro_argument_texts"] = len(margs)
 
     # ---- call macros
@@ -124,6 +126,15 @@ def main():
     if chk.quick:
         k0 = [c for c in cs if c[2] is None]
         cs = k0 + chk.rng.sample([c for c in cs if c[2] is not None], 120)
+    # the macro in any position: nested in @$(..) / $(..) / @(..) inside another subprocess, with further words and code behind it
+    NEST = [("$(ls @$(", ") -l)\ny = 1"), ("![echo @$(", ") | wc -l]"), ("r = $[cat @$(", ") > out]"), ("$(a $(", ") b)"), ("x = @($(", "))"), ("$(ls @$(", "))"), ("![a && @$(", ") c]; z = 2"),
+            ("if c:\n    $(ls @$(", ") -l)\nelse:\n    pass"), ("f($(", "), $(ls -l))")]
+    ncs = [(pre, cmd, rest, post) for pre, post in NEST for cmd, rest in SUBS]
+
+    def build_nested(ex, case):
+        pre, cmd, rest, post = case
+        return pre + cmd + "!" + rest + post + "\n", lambda m: (pre, cmd, rest, post)
+    chk.run("subproc-macro nested k=0", generic(ncs, build_nested, "c07_sub_nested"), f"{len(ncs)} (nesting context, command, rest) cases", wall=120 if chk.quick else 600, vacuity=("ok",))
     chk.run("subproc-macro k<=1", generic(cs, build_sub, "c07_sub"), f"{len(cs)} (form, command, rest, position) cases", wall=120 if chk.quick else 1200, vacuity=("ok",))
 
     # ---- with macros
